@@ -99,3 +99,69 @@ Proof.
   split; [reflexivity|]. split; [reflexivity|]. split; [reflexivity|].
   unfold ok_attrs in OK. destruct OK as [L M]. split; [exact L|]. split; intro X; rewrite X in M; exact M.
 Qed.
+
+(** ---- completeness of the filter chain, in terms of the event's own attributes only.
+    [accept_attr] does not mention the plugins, their order or pluggy: with module tracing off an event is
+    accepted iff it is in the script module and not in a lambda; with module tracing on iff it is not
+    skip-listed, not in a lambda, and its thread/task has been entered: already traced, or its module is one
+    of the modules to trace (the first module of the entering thread is one). *)
+Definition enter_first (c : cfg) (m : Z) (fs : fstate) : fstate :=
+  if negb (f_first fs) && c_entering c
+  then mkF true (f_traced fs) (if existsb (Z.eqb m) (f_mods fs) then f_mods fs else m :: f_mods fs)
+  else fs.
+
+Definition accept_attr (c : cfg) (e : event) (fs : fstate) : bool * fstate :=
+  if c_modules c then
+    match e_mc e with
+    | MSkip => (false, fs)
+    | _ => if e_lam e then (false, fs)
+           else let fs1 := enter_first c (e_mod e) fs in
+                if f_traced fs1 then (true, fs1)
+                else if existsb (Z.eqb (e_mod e)) (f_mods fs1) then (true, mkF (f_first fs1) true (f_mods fs1))
+                else (false, fs1)
+    end
+  else (match e_mc e with MScript => negb (e_lam e) | _ => false end, fs).
+
+Theorem filter_complete : forall c e fs,
+  rejected c e fs = (negb (fst (accept_attr c e fs)), snd (accept_attr c e fs)).
+Proof.
+  intros c e fs. unfold rejected, registered, accept_attr.
+  destruct (c_modules c).
+  - change (call_order reg_modules_on) with [FilterByModuleName; FilterLambda; FilerByModule].
+    cbn [first_result run_filter]. unfold dec_FilterByModuleName, dec_FilterLambda, obs_of. cbn [o_skip o_lambda].
+    destruct (e_mc e); cbn; try reflexivity; destruct (e_lam e); cbn; try reflexivity;
+      unfold filer_by_module, enter_first;
+      destruct (negb (f_first fs) && c_entering c); cbn;
+      repeat match goal with |- context[if ?b then _ else _] => destruct b; cbn end; reflexivity.
+  - change (call_order reg_modules_off) with [FilterLambda; FilterMainScript].
+    cbn [first_result run_filter]. unfold dec_FilterMainScript, dec_FilterLambda, obs_of. cbn [o_script o_lambda].
+    destruct (e_lam e); destruct (e_mc e); reflexivity.
+Qed.
+
+Corollary accepted_modules_off : forall c e fs,
+  c_modules c = false -> e_mc e = MScript -> e_lam e = false -> fst (rejected c e fs) = false.
+Proof.
+  intros c e fs M S L. rewrite filter_complete. unfold accept_attr. rewrite M, S, L. reflexivity.
+Qed.
+
+Corollary accepted_modules_on : forall c e fs,
+  c_modules c = true -> e_mc e <> MSkip -> e_lam e = false ->
+  (f_traced fs = true \/ existsb (Z.eqb (e_mod e)) (f_mods fs) = true \/ (f_first fs = false /\ c_entering c = true)) ->
+  fst (rejected c e fs) = false.
+Proof.
+  intros c e fs M S L H. rewrite filter_complete. unfold accept_attr. rewrite M, L.
+  assert (A : fst (let fs1 := enter_first c (e_mod e) fs in
+                   if f_traced fs1 then (true, fs1)
+                   else if existsb (Z.eqb (e_mod e)) (f_mods fs1) then (true, mkF (f_first fs1) true (f_mods fs1))
+                   else (false, fs1)) = true).
+  { cbv zeta. unfold enter_first. destruct (negb (f_first fs) && c_entering c) eqn:E; cbn.
+    - destruct (f_traced fs); [reflexivity|].
+      destruct (existsb (Z.eqb (e_mod e)) (f_mods fs)) eqn:X; cbn; [rewrite X; reflexivity|].
+      rewrite Z.eqb_refl. reflexivity.
+    - destruct H as [H|[H|[H1 H2]]].
+      + rewrite H. reflexivity.
+      + rewrite H. destruct (f_traced fs); reflexivity.
+      + rewrite H1, H2 in E. discriminate. }
+  cbv zeta in A. cbv zeta.
+  destruct (e_mc e); cbn [fst]; try (rewrite A; reflexivity). exfalso; apply S; reflexivity.
+Qed.
